@@ -5,14 +5,28 @@ import Lemmas.StrSpecs
 import Lemmas.Strip
 import Lemmas.Unicode
 import Lemmas.Int
-open Py Std.Do Lean Elab Tactic
+import Lemmas.Extra
+/-!
+# Lemmas.Vc — the tactic `py_vc` that closes the verification conditions `mvcgen` leaves for translated code
+
+Pipeline of `py_vc` (every step is a separate small tactic so that it can be tried in isolation):
+
+1. `py_prep`     intro, unfold the `let`-bound locals, split `∧`/`∃` hypotheses, substitute, normalise Booleans,
+                 turn the gates (`isDigitsB s = true`, …) into facts, rewrite re-compaction of accepted strings away;
+2. quick closers (`omega`, `simp_all`, …);
+3. `py_explode`  if a string has a known numeral length, destructure it into characters and evaluate slices,
+                 indexing, `zip`, `enumerate` … on the explicit list;
+4. generic closers (lemma library + `grind`).
+-/
+open Py Std.Do Lean Elab Tactic Meta
 
 /-- clear the join-point definitions `mvcgen` leaves in the context -/
 elab "clear_jps" : tactic => do
   let g ← getMainGoal
   g.withContext do
     let mut g := g
-    for ldecl in ← getLCtx do
+    for ldecl in (← getLCtx).decls.toArray.reverse do
+      let some ldecl := ldecl | continue
       if ldecl.isImplementationDetail then continue
       if ldecl.userName.toString.startsWith "__do_jp" || (ldecl.userName.eraseMacroScopes.toString.startsWith "__do_jp") then
         try g ← g.clear ldecl.fvarId catch _ => pure ()
@@ -26,32 +40,13 @@ macro "py_setup" : command => `(attribute [local irreducible] Py.upper Py.lower 
   Py.stripChars Py.lstripChars Py.rstripChars Py.isdigit Py.isalpha Py.isalnum Py.isspace Py.intOf Py.intOfBase
   Py.strOfInt Py.fmtD Py.fmtX Py.cleanP Py.cm)
 
-macro "py_vc1" : tactic => `(tactic| (first
-  | done
-  | assumption
-  | (simp_all (config := {decide := false}) [slice_length, isDigitsB_iff]; done)
-  | (simp_all (config := {decide := false}) [slice_length, isDigitsB_iff]; omega)
-  | grind))
-
 namespace Py
 @[grind →] theorem mem_zip_fst' {α β : Type} {a : α × β} {l1 : List α} {l2 : List β} (h : a ∈ l1.zip l2) : a.1 ∈ l1 :=
   (List.of_mem_zip (a := a.1) (b := a.2) (by simpa using h)).1
 @[grind →] theorem mem_zip_snd' {α β : Type} {a : α × β} {l1 : List α} {l2 : List β} (h : a ∈ l1.zip l2) : a.2 ∈ l2 :=
   (List.of_mem_zip (a := a.1) (b := a.2) (by simpa using h)).2
 @[grind →] theorem mem_of_mem_reverse' {α : Type} {a : α} {l : List α} (h : a ∈ l.reverse) : a ∈ l := List.mem_reverse.mp h
-end Py
 
-/-- closes the verification conditions `mvcgen` leaves for translated code: index bounds, digit-string
-preconditions of `int()`, alphabet membership for `index()`, non-zero divisors -/
-macro "py_vc2" : tactic => `(tactic| (first
-  | done
-  | assumption
-  | (simp only [List.length_cons, List.length_nil, Int.natCast_add, Int.cast_ofNat_Int] at *; omega)
-  | (simp (config := {decide := false}) at *; omega)
-  | (grind [isDigitsB_iff, IsDigits, AllIn, slice_length])
-  | (simp_all (config := {decide := false}) [isDigitsB_iff, IsDigits, slice_length]; done)))
-
-namespace Py
 /-- `int(s[a:b])`-style obligation from the digit gate on `s` and length facts -/
 theorem isDigits_slice_le {s : Str} {a b : Option Int} (h : AllIn isAsciiDigit s)
     (hne : loIdx s.length a < hiIdx s.length b) (hlen : hiIdx s.length b - loIdx s.length a ≤ 4300) :
@@ -70,9 +65,7 @@ theorem contains_digits_of_isAsciiDigit {c : Nat} (h : isAsciiDigit c = true) :
   have := isAsciiDigit_iff.mp h
   simp only [List.contains_cons, List.contains_nil, Bool.or_false, Bool.or_eq_true, beq_iff_eq]
   omega
-end Py
 
-namespace Py
 theorem allAlnum_of_digits {s : Str} (h : AllIn isAsciiDigit s) : AllIn isAsciiAlnum s := by
   intro c hc; have := h c hc; simp only [isAsciiAlnum, this, Bool.true_or]
 
@@ -85,28 +78,189 @@ theorem cleanP_digits {s d : Str} (h : AllIn isAsciiDigit s) (hd : d.all (fun c 
     cases hx : isAsciiAlnum c
     · rfl
     · rw [hx] at this; cases this)
+
+/-- the same from the Boolean gate, in rewriting form -/
+theorem cleanP_of_isDigitsB {s d : Str} (h : isDigitsB s = true) (hd : d.all (fun c => !isAsciiAlnum c) = true) :
+    cleanP s d = s := cleanP_digits (allIn_of_B h) hd
+theorem upper_of_isDigitsB {s : Str} (h : isDigitsB s = true) : upper s = s := upper_of_asciiDigits (allIn_of_B h)
+theorem lower_of_isDigitsB {s : Str} (h : isDigitsB s = true) : lower s = s := lower_of_asciiDigits (allIn_of_B h)
+theorem strip_of_isDigitsB {s : Str} (h : isDigitsB s = true) : strip s = s :=
+  strip_eq_self_of_asciiDigit s (allIn_of_B h)
+
+/-- a digit gate on `strip (upper x)` etc. is inherited by the string itself when it is re-processed: these are the
+rewriting forms used by `py_recompact` -/
+theorem isDigitsB_true_iff {s : Str} : isDigitsB s = true ↔ (s ≠ [] ∧ AllIn isAsciiDigit s) := isDigitsB_iff s
+
+theorem digitsVal_two (a b : Nat) : digitsVal [a, b] = ((a : Int) - 48) * 10 + ((b : Int) - 48) := by
+  simp [digitsVal]
+theorem digitsVal_three (a b c : Nat) :
+    digitsVal [a, b, c] = (((a : Int) - 48) * 10 + ((b : Int) - 48)) * 10 + ((c : Int) - 48) := by
+  simp [digitsVal]
+theorem digitsVal_four (a b c d : Nat) :
+    digitsVal [a, b, c, d] = ((((a : Int) - 48) * 10 + ((b : Int) - 48)) * 10 + ((c : Int) - 48)) * 10 + ((d : Int) - 48) := by
+  simp [digitsVal]
+
 end Py
 
-/-- once a digit gate `isDigitsB s = true` is known, `compact`-style re-processing of `s` is the identity:
-rewrite `cleanP s d`, `upper s`, `strip s` to `s` -/
-macro "py_digits" : tactic => `(tactic|
-  (try (have hdg__ := Py.allIn_of_B ‹isDigitsB _ = true›
-        try simp only [Py.cleanP_digits hdg__ (by decide), Py.upper_of_asciiDigits hdg__, Py.strip_eq_self_of_asciiDigit _ hdg__] at *)))
+/-! ## step 1: preparation -/
+
+/-- split every `∧` / `∃` hypothesis -/
+elab "py_cases_and" : tactic => liftMetaTactic fun g => do
+  let gs ← g.casesRec fun ldecl => do
+    if ldecl.isImplementationDetail then return false
+    let t ← instantiateMVars ldecl.type
+    return t.isAppOfArity ``And 2 || t.isAppOfArity ``Exists 2
+  return gs
 
 /-- normalise the Boolean path conditions `mvcgen` records (`¬(!b) = true`, `b = isDigitsB s`) -/
 macro "py_norm" : tactic => `(tactic|
   (try simp only [Bool.not_eq_true, Bool.not_eq_eq_eq_not, Bool.not_not, Bool.not_true, Bool.not_false, Bool.not_eq_false,
      bne_iff_ne, ne_eq, Decidable.not_not, beq_iff_eq, Bool.and_eq_true, Bool.or_eq_true, decide_eq_true_eq,
-     Bool.true_eq, Bool.false_eq] at *))
+     Bool.false_eq_true, Bool.true_eq_false, not_false_eq_true, not_true_eq_false, Bool.not_eq_true', Bool.not_eq_false', decide_eq_false_iff_not, Bool.or_eq_false_iff,
+     Bool.and_eq_false_imp, Classical.not_and_iff_not_or_not, not_or, Classical.not_not, true_and, and_true, List.isEmpty_iff, ne_eq,
+     List.contains_cons, List.contains_nil, Bool.or_false, Bool.false_or] at *))
+
+/-- unfold the `let`-bound locals `mvcgen` introduces for reassigned variables -/
+macro "py_zeta" : tactic => `(tactic| (try simp (config := {zetaDelta := true, decide := false}) only [] at *))
+
+/-- once a digit gate `isDigitsB s = true` is known, `compact`-style re-processing of `s` is the identity:
+rewrite `cleanP s d`, `upper s`, `strip s` to `s` -/
+macro "py_recompact" : tactic => `(tactic|
+  (try simp (disch := first | assumption | decide) only
+    [Py.cleanP_of_isDigitsB, Py.upper_of_isDigitsB, Py.lower_of_isDigitsB, Py.strip_of_isDigitsB, Py.cleanP_idem, Py.strip_strip] at *))
+
+macro "py_prep" : tactic => `(tactic|
+  (intros; py_zeta; py_cases_and; (try subst_vars); py_norm; py_cases_and; (try subst_vars); py_recompact))
+
+/-! ## step 3: strings of known length -/
+
+syntax "py_explode_go " ident : tactic
+macro_rules
+  | `(tactic| py_explode_go $h) => `(tactic| first
+    | (have h0__ := List.eq_nil_of_length_eq_zero $h; subst h0__; try clear $h)
+    | (obtain ⟨c, t, hs, h'⟩ := Py.explode_succ $h; subst hs; py_explode_go h'; try clear h'))
+
+namespace Py.VcImpl
+
+/-- is `e` an explicit list `a :: b :: … :: []`? -/
+partial def isExplicitList (e : Expr) : Bool :=
+  let e := e.consumeMData
+  if e.isAppOfArity ``List.nil 1 then true
+  else if e.isAppOfArity ``List.cons 3 then isExplicitList e.appArg!
+  else false
+
+/-- `List.length T = n` or `↑(List.length T) = n` (numeral `n`): returns `(T, n)` -/
+def lenEq? (ty : Expr) : MetaM (Option (Expr × Nat)) := do
+  let ty ← instantiateMVars ty
+  let some (α, lhs, rhs) := ty.eq? | return none
+  let lenArg? (e : Expr) : Option Expr :=
+    let e := e.consumeMData
+    if e.isAppOfArity ``List.length 2 then some e.appArg! else none
+  if α.isConstOf ``Nat then
+    let some t := lenArg? lhs | return none
+    let some n := rhs.nat? | return none
+    return some (t, n)
+  else if α.isConstOf ``Int then
+    let lhs := lhs.consumeMData
+    unless lhs.isAppOfArity ``Nat.cast 3 do return none
+    let some t := lenArg? lhs.appArg! | return none
+    let some n := rhs.int? | return none
+    if n < 0 then return none
+    return some (t, n.toNat)
+  else return none
+
+end Py.VcImpl
+
+open Py.VcImpl in
+/-- destructure every string whose length is a known numeral (≤ 40) into its characters -/
+elab "py_explode" : tactic => withMainContext do
+  let mut progress := true
+  let mut did := false
+  let mut fuel := 6
+  while progress && fuel > 0 do
+    progress := false
+    fuel := fuel - 1
+    let found ← withMainContext do
+      let mut found : Option (Expr × Nat) := none
+      for ldecl in ← getLCtx do
+        if ldecl.isImplementationDetail then continue
+        if let some (t, n) ← lenEq? ldecl.type then
+          if !isExplicitList t && n ≤ 40 then
+            found := some (t, n); break
+      pure found
+    if let some (t, n) := found then
+      let tStx ← withMainContext <| Term.exprToSyntax t
+      let nStx := Syntax.mkNumLit (toString n)
+      if t.isFVar then
+        evalTactic (← `(tactic| have hN__ : List.length $tStx = $nStx := by omega))
+        evalTactic (← `(tactic| py_explode_go hN__))
+      else
+        evalTactic (← `(tactic| generalize hgen__ : $tStx = s__ at *))
+        evalTactic (← `(tactic| try clear hgen__))
+        evalTactic (← `(tactic| have hN__ : List.length s__ = $nStx := by omega))
+        evalTactic (← `(tactic| py_explode_go hN__))
+      progress := true
+      did := true
+  unless did do throwError "py_explode: no string of known length"
+
+namespace Py.VcImpl
+partial def isLenOr (t : Expr) : MetaM Bool := do
+  if t.isAppOfArity ``Or 2 then
+    return (← isLenOr (t.getArg! 0)) && (← isLenOr (t.getArg! 1))
+  else return (← lenEq? t).isSome
+end Py.VcImpl
+
+open Py.VcImpl in
+/-- case-split hypotheses `len s = 9 ∨ len s = 10` (from `len(number) not in (9, 10)` gates) -/
+elab "py_split_len" : tactic => liftMetaTactic fun g => do
+  g.casesRec fun ldecl => do
+    if ldecl.isImplementationDetail then return false
+    let t ← instantiateMVars ldecl.type
+    if t.isAppOfArity ``Or 2 then isLenOr t else return false
+
+/-- evaluate the sequence operations on explicit lists -/
+macro "py_eval" : tactic => `(tactic|
+  (try simp (config := {decide := false}) only [slice, sliceL, loIdx, hiIdx, normIdx, getItem, getItemL, sliceStepL, everyNth, everyNthGo,
+    chars_cons, chars_nil, enumerate_cons, enumerate_nil, List.zip_cons_cons, List.zip_nil_left, List.zip_nil_right,
+    List.reverse_cons, List.reverse_nil, List.nil_append, List.cons_append, List.length_cons, List.length_nil,
+    List.take_succ_cons, List.take_zero, List.drop_succ_cons, List.drop_zero, List.take_nil, List.drop_nil,
+    Int.toNat_natCast, Int.natCast_add, Int.cast_ofNat_Int,
+    List.getElem?_cons_succ, List.getElem?_cons_zero, List.getElem?_nil,
+    Nat.reduceAdd, Nat.reduceSub, Nat.reduceMul, Nat.reduceLT, Nat.reduceLeDiff, Nat.reduceSucc,
+    Int.reduceAdd, Int.reduceSub, Int.reduceNeg, Int.reduceLT, Int.reduceLE, Int.reduceToNat, Int.reduceMul,
+    Int.reduceNegSucc, Int.reduceOfNat,
+    if_true, if_false, ite_true, ite_false, Nat.min_def, and_self, and_true, true_and, Nat.lt_irrefl,
+    Nat.zero_add, Nat.add_zero, Int.zero_add, Int.add_zero, ge_iff_le, gt_iff_lt, reduceIte,
+    Int.natCast_zero, Int.natCast_one, Nat.le_refl, Int.le_refl,
+    tupleToList_pair, sumInt_cons, sumInt_nil] at *))
+
+/-! ## closers -/
+
+macro "py_vc1" : tactic => `(tactic| (first
+  | done
+  | assumption
+  | (simp_all (config := {decide := false}) [slice_length, isDigitsB_iff]; done)
+  | (simp_all (config := {decide := false}) [slice_length, isDigitsB_iff]; omega)
+  | grind))
+
+macro "py_vc2" : tactic => `(tactic| (first
+  | done
+  | assumption
+  | (simp only [List.length_cons, List.length_nil, Int.natCast_add, Int.cast_ofNat_Int] at *; omega)
+  | (simp (config := {decide := false}) at *; omega)
+  | (grind [isDigitsB_iff, IsDigits, AllIn, slice_length])
+  | (simp_all (config := {decide := false}) [isDigitsB_iff, IsDigits, slice_length]; done)))
+
+macro "py_digits" : tactic => `(tactic|
+  (try (have hdg__ := Py.allIn_of_B ‹isDigitsB _ = true›
+        try simp only [Py.upper_of_asciiDigits hdg__, Py.strip_eq_self_of_asciiDigit _ hdg__] at *)))
 
 /-- for-loop cursors: `h : xs = pref ++ cur :: suff` gives `cur ∈ xs` -/
 macro "py_cursor" : tactic => `(tactic|
   (try (have hcur__ := Py.mem_of_eq_append_cons ‹_ = _ ++ _ :: _›)))
 
-/-- unfold the `let`-bound locals `mvcgen` introduces for reassigned variables -/
-macro "py_zeta" : tactic => `(tactic| (try simp (config := {zetaDelta := true, decide := false}) only [] at *))
-
-macro "py_vc3" : tactic => `(tactic| (py_zeta; py_norm; (try subst_vars); py_norm; py_digits; py_cursor; first
+/-- the generic closers (no string of known length) -/
+macro "py_close_generic" : tactic => `(tactic| (py_digits; py_cursor; first
   | done
   | assumption
   | (simp only [List.length_cons, List.length_nil] at *; omega)
@@ -114,6 +268,28 @@ macro "py_vc3" : tactic => `(tactic| (py_zeta; py_norm; (try subst_vars); py_nor
   | (simp (config := {decide := false}) at *; omega)
   | (grind [isDigitsB_iff, IsDigits, AllIn, slice_length, contains_digits_of_isAsciiDigit])
   | (simp_all (config := {decide := false}) [isDigitsB_iff, IsDigits, slice_length]; done)))
+
+/-- closers after `py_explode; py_eval`: everything is about explicit characters -/
+macro "py_close_concrete" : tactic => `(tactic| (first
+  | done
+  | assumption
+  | omega
+  | (simp_all (config := {decide := false}) [isDigitsB, IsDigits, Py.digitsVal_two, Py.digitsVal_three, Py.digitsVal_four]; done)
+  | (simp_all (config := {decide := false}) [isDigitsB, IsDigits, Py.digitsVal_two, Py.digitsVal_three, Py.digitsVal_four]; omega)))
+
+/-- exception bookkeeping: `e = .valueError`, `¬ e.caughtBy .valueError` … -/
+macro "py_exc" : tactic => `(tactic|
+  (simp (config := {decide := true}) only [Exc.caughtBy, Exc.isValidation, Classical.not_not, not_true_eq_false,
+     false_and, and_false] at *; done))
+
+macro "py_vc3" : tactic => `(tactic| (py_prep; first
+  | done
+  | trivial
+  | assumption
+  | omega
+  | py_exc
+  | (py_split_len <;> (py_explode; py_eval; py_close_concrete))
+  | py_close_generic))
 
 /-- the closing tactic used by the generated contract proofs -/
 macro "py_vc" : tactic => `(tactic| py_vc3)
